@@ -59,6 +59,11 @@ def conv(n):
         return {"k": "Const", "v": desc(n.value)}
     if isinstance(n, ast.BinOp):
         return {"k": "BinOp", "op": BINAST[type(n.op)], "l": conv(n.left), "r": conv(n.right)}
+    if (isinstance(n, ast.UnaryOp) and isinstance(n.op, ast.USub) and isinstance(n.operand, ast.Constant)
+            and type(n.operand.value) in (int, float)):
+        # a negative numeric literal: one constant for CPython's compiler, `neg` of a plain number for an AST
+        # interpreter - no event either way, and the value is known
+        return {"k": "Const", "v": desc(-n.operand.value)}
     if isinstance(n, ast.UnaryOp):
         return {"k": "UnaryOp", "op": UNAST[type(n.op)], "v": conv(n.operand)}
     if isinstance(n, ast.BoolOp):
@@ -639,6 +644,85 @@ def gen_templates():
     return out
 
 
+# ---- scope family: every operation that binds / rebinds / unbinds / shadows a NAME  x  every kind of value
+# the name holds before.  (Round 3: the templates and tables bind names only to recorder objects - `t(1, None)`
+# is a truthy-or-falsy WRAPPER, never the plain object - and the random programs' comprehension variables
+# u/v/vv never coincide with an assigned name: "the enclosing scope already has this name, bound to a plain
+# None / 0 / '' / [] ..." was outside the generated space.)
+# `{B}` = the prelude that binds the names v and w; every form ends with a read of the names.
+SCOPE_FORMS = [
+    # comprehension loop variables shadow the enclosing binding (own scope: restored afterwards)
+    ("comp/list", "x = [v for v in t(1, [7, 8])]"),
+    ("comp/set", "x = {v for v in t(1, [7, 8])}"),
+    ("comp/dict", "x = {v: t(2) for v in t(1, [7, 8])}"),
+    ("comp/empty", "x = [v for v in t(1, [])]"),
+    ("comp/emptydict", "x = {v: w for v, w in t(1, [])}"),
+    ("comp/plainiter", "x = [v for v in [t(1), t(2)]]"),
+    ("comp/pair", "x = [(v, w) for v, w in t(1, [[1, 2], [3, 4]])]"),
+    ("comp/dictpair", "x = {v: w for v, w in t(1, [[1, 2]])}"),
+    ("comp/star", "x = [w for v, *w in t(1, [[1, 2, 3]])]"),
+    ("comp/two", "x = [w for v in t(1, [[7], [8]]) for w in v]"),
+    ("comp/same2", "x = [v for v in t(1, [[7], [8]]) for v in v]"),
+    ("comp/iffalse", "x = [v for v in t(1, [7, 8]) if t(2, 0)]"),
+    ("comp/ifvar", "x = [t(2) for v in t(1, [0, 8]) if v]"),
+    ("comp/nested", "x = [[v for v in t(1, [9])] for v in t(2, [7, 8])]"),
+    ("comp/nestedother", "x = [[w for w in t(1, [9])] for v in t(2, [7, 8])]"),
+    ("comp/outeriter", "x = [t(1) for v in v]"),           # the first iterable is evaluated in the enclosing scope
+    ("comp/walrusout", "x = [(y := v) for v in t(1, [7, 8])]"),
+    ("comp/walrusin", "x = [(v := u) for u in t(1, [7, 8])]"),  # walrus binds the ENCLOSING v; u is scoped
+    ("comp/raise", "x = [t(2, [])[0] for v in t(1, [7, 8])]"),    # restored also when the body raises
+    ("comp/raiseiter", "x = [v for v in t(1, 5)]"),              # iter() raises before any binding
+    ("comp/raiseunpack", "x = [v for v, w in t(1, [[1]])]"),
+    ("comp/twice", "x = [v for v in t(1, [7])]\nz = [v for v in t(2, [8])]"),
+    ("comp/arg", "x = g([v for v in t(1, [7, 8])], k={w for w in t(2, [9])})"),
+    # the other name-binding operations on an already bound name
+    ("load", "x = v"),
+    ("load2", "x = [v, w, v]"),
+    ("del", "del v"),
+    ("del2", "del v, w"),
+    ("walrus", "x = (v := t(1))"),
+    ("walrusself", "x = (v := v)"),
+    ("rebind", "v = t(1)"),
+    ("rebindplain", "v = w = None"),
+    ("unpack", "v, w = t(1, [7, 8])"),
+    ("unpackstar", "v, *w = t(1, [7, 8, 9])"),
+    ("unpackfrom", "x, y = v"),
+    ("aug", "v += t(1)"),
+    ("augself", "v += w"),
+    ("truth/if", "x = t(1) if v else t(2)"),
+    ("truth/and", "x = v and t(1)"),
+    ("truth/or", "x = v or t(1)"),
+    ("truth/not", "x = not v"),
+    ("truth/compif", "x = [t(2) for u in t(1, [7]) if v]"),
+    ("isnone", "x = v is None"),
+    ("isnotnone", "x = (v is not None) and t(1)"),
+    ("fstr", "x = f'{v}{w!r}'"),
+    ("call", "x = g(v, k=w)"),
+    ("star", "x = [*v, t(1)]"),
+    ("dstar", "x = {**v, 'k': t(1)}"),
+    ("store", "a0[t(1, 0)] = v"),
+    ("dictval", "x = {t(1): v, 'n': w}"),
+]
+
+
+def scope_bindings():
+    """(tag, prelude): the names v and w bound to every value of the kind table as a PLAIN object, to recorder
+    objects (truthy / wrapping None / falsy), and not bound at all."""
+    out = [("plain/%s" % lit, "v = %s\nw = %s\n" % (lit, lit)) for _k, lit in kind_lits(True)]
+    out += [("rec", "v = t(90)\nw = t(91)\n"), ("recnone", "v = t(90, None)\nw = t(91, None)\n"),
+            ("recfalsy", "v = t(90, 0)\nw = t(91, [])\n"), ("alias", "v = w = t(90)\n"), ("mixed", "v = None\nw = t(91)\n"),
+            ("unbound", "")]
+    return out
+
+
+def gen_scope():
+    out = []
+    for btag, pre in scope_bindings():
+        for ftag, form in SCOPE_FORMS:
+            out.append(("scope/%s/%s" % (ftag, btag), "%s%s\nr = (v, w)" % (pre, form)))
+    return out
+
+
 class RandGen:
     """random deep nestings; masked=True avoids every construct at which a known deviation applies."""
 
@@ -1076,9 +1160,14 @@ def build_programs(ctx):
         add("template", base, [OPTS0, QUIET])
         add("template", r.sample(rest, len(rest) // 12), [OPTS0, QUIET], alternate=True)
         add("table", r.sample(tables, len(tables) // 8), [OPTS0, QUIET], alternate=True)
+        # scope family: complete in the quiet mode (masked space), a seeded quarter also in the full mode
+        scope = gen_scope()
+        add("scope", scope, [QUIET])
+        add("scope", r.sample(scope, len(scope) // 4), [OPTS0])
     else:
         add("table", tables, [OPTS0, QUIET])
         add("template", tpls, [OPTS0, QUIET])
+        add("scope", gen_scope(), [OPTS0, QUIET])
     add("witness", [("witness/%d" % i, f["witness"]) for i, f in enumerate(ctx.findings) if f.get("status") == "known"], [OPTS0])
     only = os.environ.get("VERIF_C01_FAMILIES")       # development aid (tools/c01_try_fix.sh): restrict the families
     if only:
